@@ -166,6 +166,23 @@ pub fn spellings(out: &mut Out, v: &Vocab, e: &str, b: &Beh, r: &Rendered, outs:
         ps[p - 1] = format!("^{}", r.asg.sups[&p]);
         let t = join(&ps);
         for (ph, oa) in outs { pair(out, "meta_sup", e, &r.text, &t, ph, oa, None, &ctx); }
+        // the same site with digit runs at and beyond the ends of the integer types (a literal the tokenizer converts differently
+        // from a superscript run shows only there), and with leading zeros
+        if b.kinds.len() <= 4 {
+            if let Some((ph, _)) = outs.first() {
+                for l in ["9223372036854775807", "9223372036854775808", "18446744073709551616", "4294967296", "00000000000000000000002", "64"] {
+                    let mut pa = r.pieces.clone();
+                    pa[p - 1] = crate::vocab::sup_digits(l);
+                    let ta = join(&pa);
+                    let mut pb = r.pieces.clone();
+                    pb[p - 1] = format!("^{}", l);
+                    let tb = join(&pb);
+                    let (oa, _) = call(e, &ta, ph);
+                    out.stats.calls += 1;
+                    pair(out, "meta_sup", e, &ta, &tb, ph, &oa, None, &ctx);
+                }
+            }
+        }
     }
     // prefix plus before an operand
     for s in sites["plus"].as_array().map(|a| a.to_vec()).unwrap_or_default() {
